@@ -513,6 +513,41 @@ impl Ctx {
         self.violation(what, detail());
         false
     }
+    /// Multi-finding form of the oracle step: `explained` = None when the actual result cannot be
+    /// explained at all; Some(list) = the known findings that are needed to explain it (empty =
+    /// conforms to the specification).  All needed findings must be open, otherwise VIOLATION.
+    pub fn judge_explained(
+        &mut self,
+        explained: Option<Vec<&'static str>>,
+        what: &str,
+        detail: impl FnOnce() -> Value,
+    ) -> bool {
+        self.eval();
+        match explained {
+            Some(list) if list.is_empty() => true,
+            Some(list) if list.iter().all(|f| self.finding_open(f)) => {
+                let d = detail();
+                for f in list {
+                    let dd = d.clone();
+                    self.known_hit(f, move || dd);
+                }
+                false
+            }
+            Some(list) => {
+                let missing: Vec<&str> = list.iter().copied().filter(|f| !self.finding_open(f)).collect();
+                let mut d = detail();
+                if let Some(o) = d.as_object_mut() {
+                    o.insert("deviation_of_unlisted_finding".into(), json!(missing));
+                }
+                self.violation(what, d);
+                false
+            }
+            None => {
+                self.violation(what, detail());
+                false
+            }
+        }
+    }
     pub fn elapsed(&self) -> f64 {
         self.start.elapsed().as_secs_f64()
     }
@@ -571,10 +606,17 @@ pub fn run_child(spec: &PropSpec, tier: Tier, seed: u64, shard: usize, nshards: 
     let res = panic::catch_unwind(AssertUnwindSafe(|| (spec.run)(&mut ctx)));
     if let Err(_) = res {
         let log = take_panics();
-        ctx.violation(
-            "panic escaped to the harness top level (library or harness panic outside a guarded call)",
-            json!({ "panics": log }),
-        );
+        // a panic raised by harness code itself (location inside this crate) is a broken check,
+        // never a verdict about the library
+        let in_harness = log.last().map(|l| l.contains(" at src/")).unwrap_or(false);
+        if in_harness {
+            ctx.note(&format!("HARNESS-PANIC: {}", log.last().cloned().unwrap_or_default()));
+        } else {
+            ctx.violation(
+                "panic escaped to the harness top level outside a guarded library call",
+                json!({ "panics": log }),
+            );
+        }
     }
     let v = ctx.rep.to_json();
     match std::fs::write(out, serde_json::to_vec(&v).unwrap_or_default()) {
@@ -701,6 +743,11 @@ fn finish(spec: &PropSpec, ctx: &mut Ctx, mut broken: Vec<String>) -> i32 {
             ctx.kf.signature(id),
             hits
         );
+    }
+    for n in &rep.notes {
+        if n.starts_with("HARNESS-PANIC") {
+            broken.push(n.clone());
+        }
     }
     if rep.evaluations == 0 && rep.violation_count == 0 {
         broken.push("no oracle evaluation was performed (vacuous run)".to_string());
